@@ -65,6 +65,9 @@ try:
     assert rc == 0, out
     rcb, outb = sh("go build ./... && go vet ./internal/... >/dev/null 2>&1; go build ./...", wt)
     res["builds_with_patch"] = rcb == 0
+    # Interfaces left behind by an earlier, killed run of the repository's real-interface tests
+    # (fixed names) make those tests skip or fail: remove them first.
+    sh("for l in $(ip -o link show | grep -o 'crad[a-z]*[0-9]*' | sort -u); do ip link del $l 2>/dev/null; done; true", wt)
     missing = suite(wt)
     if missing:
         missing = suite(wt) & missing  # tolerate one-off flakes: must be missing twice
